@@ -8,6 +8,7 @@ import (
 	"bufio"
 	"encoding/binary"
 	"errors"
+	"fmt"
 	"io"
 
 	"github.com/cnotch/ipchub/utils/verifhook"
@@ -94,7 +95,7 @@ func ReadPacket(r *bufio.Reader, channelConfig []int) (*Packet, error) {
 		if v == channel {
 			p.Channel = byte(i)
 			if p.Channel == ChannelVideo || p.Channel == ChannelAudio {
-				if err = p.Header.Unmarshal(p.Data); err != nil {
+				if err = unmarshalHeader(&p.Header, p.Data); err != nil {
 					return nil, err
 				}
 			}
@@ -102,6 +103,17 @@ func ReadPacket(r *bufio.Reader, channelConfig []int) (*Packet, error) {
 		}
 	}
 	return nil, errors.New("RTP Packet illegal channel")
+}
+
+// unmarshalHeader 解析 RTP 头；
+// pion/rtp 在扩展头长度越界时会 panic（切片越界），这里转换成错误返回
+func unmarshalHeader(h *rtp.Header, data []byte) (err error) {
+	defer func() {
+		if r := recover(); r != nil {
+			err = fmt.Errorf("RTP header malformed: %v", r)
+		}
+	}()
+	return h.Unmarshal(data)
 }
 
 // Write 根据规范将 RTP 包输出到 w
